@@ -220,9 +220,10 @@ example : ((latexBodyText (.opb ⟨2, [⟨[(2, 1), (1, -2)], .ge, 2⟩, ⟨[], .
     (fun t => (readLatexConstraintsText ["a".toList, "b_1".toList] t).toOption)) =
     some [⟨[(2, 1), (1, -2)], .ge, 2⟩, ⟨[], .eq, 0⟩, ⟨[(-3, 2)], .ge, -1⟩] := by decide
 
-/-- a full document exists as soon as the header has a description (otherwise `F.header['description']` is a KeyError) -/
+/-- a full document exists with or without a description in the header (regression of D46: a missing `description`
+used to be a KeyError; it is an empty title since the fix 41a4c01 in /repo) -/
 example : (latexDocumentText (.cnf ⟨1, [[1]]⟩) ["x".toList] [("description".toList, "a_b".toList)] false []).toOption.isSome = true ∧
-    (latexDocumentText (.cnf ⟨1, [[1]]⟩) ["x".toList] [] false []).toOption.isSome = false := by decide
+    (latexDocumentText (.cnf ⟨1, [[1]]⟩) ["x".toList] [] false []).toOption.isSome = true := by decide
 
 /-- the hypothesis on names is a real restriction: a name with a blank is several words, and the reader
 cannot find the literal -/
